@@ -420,6 +420,7 @@ func TestC17(t *testing.T) {
 	if env.Mine(0) {
 		receivedOverLink(t, rep, &evals, &nontrivial)
 	}
+	runPoolSched(t, rep, env)
 	runtime.GOMAXPROCS(1)
 	debug.SetGCPercent(-1)
 
